@@ -1556,7 +1556,11 @@ def covariance(obs, visualize=False, correlation=False, smooth=None, **kwargs):
             cov[i, j] = _covariance_element(obs[i], obs[j])
     cov = cov + cov.T - np.diag(np.diag(cov))
 
-    corr = np.diag(1 / np.sqrt(np.diag(cov))) @ cov @ np.diag(1 / np.sqrt(np.diag(cov)))
+    variances = np.diag(cov)
+    inv_errors = np.zeros(length)
+    inv_errors[variances > 0] = 1 / np.sqrt(variances[variances > 0])
+    corr = np.diag(inv_errors) @ cov @ np.diag(inv_errors)
+    corr[variances <= 0, variances <= 0] = 1.0  # an observable without fluctuations is uncorrelated with everything
 
     if isinstance(smooth, (int, np.integer)):
         corr = _smooth_eigenvalues(corr, smooth)
